@@ -10,6 +10,7 @@ import EaselModel.Sqio.ReadInfo
 import EaselModel.Sqio.ParseFasta
 import EaselModel.Sqio.Totality
 import EaselModel.Sqio.SpecFasta
+import EaselModel.Sqio.WindowSeries
 /-! # C04 — all ways of reading a sequence file agree with each other and with the file
 
 Property theorems only (proofs are glue on `Sqio/Windows.lean`, `Sqio/Refine.lean`, `Sqio/Spec.lean`).
@@ -343,6 +344,80 @@ example :
     r.1.map (·.name) = [#[97], #[120]] ∧ r.1.map (·.desc) = [#[98, 32, 99], #[]] ∧ r.1.map (·.seq) = [#[65, 67, 71, 84], #[]] ∧
     r.1.map (·.roff) = [0, 14] ∧ r.1.map (·.hoff) = [6, 16] ∧ r.1.map (·.doff) = [7, 17] ∧ r.1.map (·.eoff) = [13, 16] ∧
     r.1.map (·.L) = [4, 0] ∧ r.2 = Status.eof := by
+  decide +kernel
+
+
+/-! ## Forward windows deliver the residues of `Read` (round 4): `sqascii_ReadWindow` = the declarative window series, for every block size
+
+`WindowSpec.readNres_zero_spec`: `read_nres(sqfp, sq, 0, W)` in closed form on the remaining file bytes (`splitRes`: the shortest prefix
+holding `W` residues), for every `B ≥ 1` — through `seebuf(maxn)`, `addbuf`, `loadbuf` at every block boundary, a window ending exactly at
+a block end included. `WindowSeries.windows_eq_read` composes it with `header_fasta`, the context slide (`memmove`), `end_fasta`. -/
+
+open EaselModel.Sqio.Cursor EaselModel.Sqio.ReadSpec EaselModel.Sqio.WindowSeries EaselModel.Sqio.WinSpecPure in
+/-- **`ReadWindow` series = `specWindows` of the residues `Read` returns.** For every file, cursor position, block size `B ≥ 1`, text or
+    digital mode and every request stream `(C_k ≥ 0, W_k ≥ 1)` (context and width may change from call to call): if the whole-record read
+    succeeds with residues `R`, the loop `while (esl_sqio_ReadWindow(sqfp, C_k, W_k, sq) == eslOK)` on the same handle returns exactly
+    the declarative windows of `R` (`Sqio/WinSpecPure.lean`: context = the `min C_k (previous window size)` preceding residues, `min W_k
+    (residues left)` new ones, `start = d − c + 1`, `end = d + w`, residues `R[start..end]`), then `eslEOD` with `L = |R|` and an empty
+    window, reports the same name / accession / description / `roff` / `hoff` / `doff`, and leaves the cursor on the byte where `Read`
+    leaves it (so the next record starts identically for both). -/
+theorem windows_eq_read (a : Ascii) (sq : Sq) (R : Ready a sq) (hs : sq.seq = #[]) (hst : sq.start = 0)
+    (hok : (read a sq).2.2 = .ok) (req : Nat → Int × Int) (hreq : ∀ k, 0 ≤ (req k).1 ∧ 1 ≤ (req k).2) :
+    (readWindowsM req ((read a sq).2.1.seq.size + 2) 0 a sq).1.map toWin =
+      specWindows (read a sq).2.1.seq req ((read a sq).2.1.seq.size + 2) 0 0 0 ∧
+    (readWindowsM req ((read a sq).2.1.seq.size + 2) 0 a sq).2.2.2 = .eod ∧
+    (readWindowsM req ((read a sq).2.1.seq.size + 2) 0 a sq).2.2.1.seq = #[] ∧
+    (readWindowsM req ((read a sq).2.1.seq.size + 2) 0 a sq).2.2.1.L = (read a sq).2.1.L ∧
+    (readWindowsM req ((read a sq).2.1.seq.size + 2) 0 a sq).2.2.1.start = 0 ∧
+    idOf (readWindowsM req ((read a sq).2.1.seq.size + 2) 0 a sq).2.2.1 = idOf (read a sq).2.1 ∧
+    Cur (readWindowsM req ((read a sq).2.1.seq.size + 2) 0 a sq).2.1 ∧
+    DataScan.fileFrom (readWindowsM req ((read a sq).2.1.seq.size + 2) 0 a sq).2.1 = DataScan.fileFrom (read a sq).1 ∧
+    stat (readWindowsM req ((read a sq).2.1.seq.size + 2) 0 a sq).2.1 = stat a :=
+  WindowSeries.windows_eq_read a sq R hs hst hok req hreq
+
+open EaselModel.Sqio.ReadSpec EaselModel.Sqio.WindowSeries EaselModel.Sqio.WinSpecPure in
+/-- **`windows_concat_eq_read`**: the new (non-context) parts of the windows, concatenated in call order, are exactly the residue array
+    of the whole-record read — `ReadWindow` and `Read` deliver the same residues, for every block size and window geometry. -/
+theorem windows_concat_eq_read (a : Ascii) (sq : Sq) (R : Ready a sq) (hs : sq.seq = #[]) (hst : sq.start = 0)
+    (hok : (read a sq).2.2 = .ok) (req : Nat → Int × Int) (hreq : ∀ k, 0 ≤ (req k).1 ∧ 1 ≤ (req k).2) :
+    ((readWindowsM req ((read a sq).2.1.seq.size + 2) 0 a sq).1.map toWin).foldl (fun acc x => acc ++ newPart x) #[] =
+      (read a sq).2.1.seq :=
+  WindowSeries.windows_concat_eq_read a sq R hs hst hok req hreq
+
+open EaselModel.Sqio.ReadSpec EaselModel.Sqio.WindowSeries EaselModel.Sqio.WinSpecPure in
+/-- every window is `[start .. end]` (1-based, inside `1..L`) and holds exactly `C + W = end − start + 1` residues -/
+theorem windows_coords (a : Ascii) (sq : Sq) (R : Ready a sq) (hs : sq.seq = #[]) (hst : sq.start = 0)
+    (hok : (read a sq).2.2 = .ok) (req : Nat → Int × Int) (hreq : ∀ k, 0 ≤ (req k).1 ∧ 1 ≤ (req k).2) :
+    ∀ x ∈ (readWindowsM req ((read a sq).2.1.seq.size + 2) 0 a sq).1.map toWin,
+      x.end_ - x.start + 1 = x.C + x.W ∧ (x.seq.size : Int) = x.C + x.W ∧ 1 ≤ x.start ∧
+      x.end_ ≤ ((read a sq).2.1.seq.size : Int) ∧ 0 ≤ x.C :=
+  WindowSeries.windows_coords a sq R hs hst hok req hreq
+
+open EaselModel.Sqio.Cursor EaselModel.Sqio.BodySpec EaselModel.Sqio.WindowSpec in
+/-- **`read_nres(sqfp, sq, 0, W)` in closed form, for every `B ≥ 1`** (the residue reader of `ReadWindow` / `FetchSubseq`): on clean data
+    (the record's data ends at the end of the file or at `>`), from any well-formed handle — the cursor may even stand at the very end of a
+    block — it appends exactly the residues of `splitRes … W` (the shortest prefix of the remaining bytes holding `W` residues, or all
+    data bytes if fewer), reports their number, `eslEOD` iff there is none, and leaves the cursor right behind the bytes consumed. -/
+theorem read_nres_closed_form (a : Ascii) (sq : Sq) (W : Nat) (hW : 1 ≤ W) (w : Refine.WF a) (tok : Fold.Track.Ok a.trk) (hm : a.inmap.size = 128)
+    (heof : a.eofIsOk = true) (hmap : MapOk a.inmap (mapOf a sq)) (hclean : Clean a.inmap (DataScan.fileFrom a))
+    (hcap : sq.seq.size + W + (if sq.digital then 2 else 1) ≤ sq.salloc) :
+    (readNres a sq 0 W).2.1 = { sq with seq := sq.seq ++ resOf a.inmap (mapOf a sq) (splitRes a.inmap (DataScan.fileFrom a) W).1 } ∧
+    (readNres a sq 0 W).2.2.2 = nresOf a.inmap (splitRes a.inmap (DataScan.fileFrom a) W).1 ∧
+    (readNres a sq 0 W).2.2.1 = (if nresOf a.inmap (splitRes a.inmap (DataScan.fileFrom a) W).1 = 0 then .eod else .ok) ∧
+    Refine.WF (readNres a sq 0 W).1 ∧ DataScan.fileFrom (readNres a sq 0 W).1 = (splitRes a.inmap (DataScan.fileFrom a) W).2 ∧
+    stat (readNres a sq 0 W).1 = stat a := by
+  obtain ⟨r1, r2, r3, r4, _, r6, r7, _⟩ := WindowSpec.readNres_zero_spec a sq W hW w tok hm heof hmap hclean hcap
+  exact ⟨r1, r2, r3, r4, r6, r7⟩
+
+open EaselModel.Sqio.ParseFasta EaselModel.Sqio.WindowSeries EaselModel.Sqio.WinSpecPure in
+/-- non-vacuity, on the executable model: `>a\nAC\nGT\n>b\n` opened with B = 2 (text mode), windows requested with `C = 1, W = 3`:
+    `[1..3] = ACG` (no context), then `[3..4] = GT` with one residue of context, then `eslEOD` with `L = 4` — and the whole-record read of
+    the same handle returns `ACGT` -/
+example :
+    let a := openFasta #[62, 97, 10, 65, 67, 10, 71, 84, 10, 62, 98, 10] 2 0
+    let r := readWindowsM (fun _ => (1, 3)) 6 0 a (freshSq 0).reuse
+    r.1.map toWin = [⟨1, 3, 0, 3, #[65, 67, 71]⟩, ⟨3, 4, 1, 1, #[71, 84]⟩] ∧ r.2.2.2 = Status.eod ∧ r.2.2.1.L = 4 ∧
+    (read a (freshSq 0).reuse).2.1.seq = #[65, 67, 71, 84] ∧ (read a (freshSq 0).reuse).2.2 = Status.ok := by
   decide +kernel
 
 end EaselModel.Props.C04
